@@ -47,9 +47,9 @@ def perPara (op : String) (args : List String) (od : Options Int) (para : List I
   match op, args with
   | "wrap", [w] => do
     let w ← parseInt w
-    match wrapLines cxA para w od.lineSep with
-    | .ok ls => some (joinWith od.lineSep ls)
-    | .error _ => none
+    -- the result for the single paragraph is the non-paragraph operation on it, trailing-separator
+    -- rule included (C11: "equals the separator-join of the results for the single paragraphs")
+    match ed.wrapOpts cxA w o1 with | .ok e => some e.text | .error _ => none
   | "justify", [w] => do
     let w ← parseInt w
     match ed.justifyOpts cxA w o1 with | .ok e => some e.text | .error _ => none
